@@ -101,14 +101,18 @@ func decodeControl(packet *ber.Packet) (Control, error) {
 	case 0:
 		// at least one child is required for a control type
 		return nil, fmt.Errorf("%s: at least one child is required for control type", op)
-	case 1:
-		// just type, no critically or value
+	case 1, 2, 3:
+		var ok bool
+		if ControlType, ok = packet.Children[0].Value.(string); !ok {
+			return nil, fmt.Errorf("%s: control type is not a string: %w", op, ErrInvalidParameter)
+		}
 		packet.Children[0].Description = "Control Type (" + ControlTypeMap[ControlType] + ")"
-		ControlType = packet.Children[0].Value.(string)
+	default:
+		// more than 3 children is invalid
+		return nil, fmt.Errorf("%s: more than 3 children is invalid for controls", op)
+	}
+	switch len(packet.Children) {
 	case 2:
-		packet.Children[0].Description = "Control Type (" + ControlTypeMap[ControlType] + ")"
-		ControlType = packet.Children[0].Value.(string)
-
 		// Children[1] could be criticality or value (both are optional)
 		// duck-type on whether this is a boolean
 		if _, ok := packet.Children[1].Value.(bool); ok {
@@ -119,17 +123,14 @@ func decodeControl(packet *ber.Packet) (Control, error) {
 			value = packet.Children[1]
 		}
 	case 3:
-		packet.Children[0].Description = "Control Type (" + ControlTypeMap[ControlType] + ")"
-		ControlType = packet.Children[0].Value.(string)
-
+		var ok bool
 		packet.Children[1].Description = "Criticality"
-		Criticality = packet.Children[1].Value.(bool)
+		if Criticality, ok = packet.Children[1].Value.(bool); !ok {
+			return nil, fmt.Errorf("%s: control criticality is not a boolean: %w", op, ErrInvalidParameter)
+		}
 
 		packet.Children[2].Description = "Control Value"
 		value = packet.Children[2]
-	default:
-		// more than 3 children is invalid
-		return nil, fmt.Errorf("%s: more than 3 children is invalid for controls", op)
 	}
 	switch ControlType {
 	case ControlTypeManageDsaIT:
@@ -153,10 +154,17 @@ func decodeControl(packet *ber.Packet) (Control, error) {
 			return nil, fmt.Errorf("%s: paging control value must have a least 1 child: %w", op, ErrInvalidParameter)
 		}
 		value = value.Children[0]
+		if len(value.Children) < 2 {
+			return nil, fmt.Errorf("%s: paging control value must have a size and a cookie: %w", op, ErrInvalidParameter)
+		}
 		value.Description = "Search Control Value"
 		value.Children[0].Description = "Paging Size"
 		value.Children[1].Description = "Cookie"
-		c.PagingSize = uint32(value.Children[0].Value.(int64))
+		pagingSize, ok := value.Children[0].Value.(int64)
+		if !ok {
+			return nil, fmt.Errorf("%s: paging size is not an integer: %w", op, ErrInvalidParameter)
+		}
+		c.PagingSize = uint32(pagingSize)
 		c.Cookie = value.Children[1].Data.Bytes()
 		value.Children[1].Value = c.Cookie
 		return c, nil
@@ -191,6 +199,9 @@ func decodeControl(packet *ber.Packet) (Control, error) {
 		for _, child := range sequence.Children {
 			if child.Tag == 0 {
 				// Warning
+				if len(child.Children) == 0 {
+					return nil, fmt.Errorf("%s: behera warning must have a child: %w", op, ErrInvalidParameter)
+				}
 				warningPacket := child.Children[0]
 				val, err := ber.ParseInt64(warningPacket.Data.Bytes())
 				if err != nil {
@@ -246,7 +257,11 @@ func decodeControl(packet *ber.Packet) (Control, error) {
 		c.ControlType = ControlType
 		c.Criticality = Criticality
 		if value != nil {
-			c.ControlValue = value.Value.(string)
+			controlValue, ok := value.Value.(string)
+			if !ok {
+				return nil, fmt.Errorf("%s: control value is not a string: %w", op, ErrInvalidParameter)
+			}
+			c.ControlValue = controlValue
 		}
 		return c, nil
 	}
